@@ -153,7 +153,7 @@ Lemma lookup_step k i st c name parent poff hash :
   lookup_from (S k) i st c name parent poff hash =
     let next := lookup_from k (S i) st c name parent poff hash in
     if negb (nth i (cs_hash st) 0 =? hash) || negb (nth i (cs_par st) 0 =? parent) then next else
-    if nth i (cs_len st) 0 =? 0 then LkPanic PC_ASSERT_LEN else
+    if nth i (cs_len st) 0 =? 0 then (if cmp_skips_unused then next else LkPanic PC_ASSERT_LEN) else
     match slice_opt c (nth i (cs_pos st) 0) (nth i (cs_len st) 0) with
     | None => LkPanic PC_CONTENTS
     | Some entry =>
@@ -237,7 +237,7 @@ Proof.
   rewrite lookup_step in H. cbv zeta in H.
   destruct (negb (nth i0 (cs_hash st) 0 =? hash) || negb (nth i0 (cs_par st) 0 =? parent)) eqn:F; [eapply IH; eauto|].
   apply orb_false_iff in F as [_ F]. apply negb_false_iff, N.eqb_eq in F.
-  destruct (nth i0 (cs_len st) 0 =? 0); [discriminate H|].
+  destruct (nth i0 (cs_len st) 0 =? 0); [destruct cmp_skips_unused; [eapply IH; eauto|discriminate H]|].
   destruct (slice_opt c (nth i0 (cs_pos st) 0) (nth i0 (cs_len st) 0)) as [entry|] eqn:S; [|discriminate H].
   destruct (negb (attach_ok c (nth i0 (cs_pos st) 0) (nth i0 (cs_len st) 0) poff)); [eapply IH; eauto|].
   assert (He : len entry = nth i0 (cs_len st) 0).
@@ -257,7 +257,7 @@ Proof.
   rewrite lookup_step. cbv zeta.
   destruct (N.eqb_spec (nth i0 (cs_hash st) 0) hash) as [E1|E1]; cbn [negb orb]; [|apply IH; exact Hz].
   destruct (N.eqb_spec (nth i0 (cs_par st) 0) parent) as [E2|E2]; cbn [negb]; [|apply IH; exact Hz].
-  rewrite (Hz i0 E1 E2). cbn. discriminate.
+  rewrite (Hz i0 E1 E2). cbn [N.eqb]. destruct cmp_skips_unused; [apply IH; exact Hz|discriminate].
 Qed.
 
 (* ================= (B) octets equal up to case decode to the same labels ================= *)
@@ -276,16 +276,15 @@ Hypothesis Hh : length h = 12%nat.
 Let m := h ++ c.
 
 Lemma path_ci : forall n, Forall valid_label n ->
-  forall pre E post nl, c = pre ++ E ++ post -> lowers E = lowers (wire_rel n) ->
-    nl + N.of_nat (wire_len n) < 255 ->
+  forall pre E post, c = pre ++ E ++ post -> lowers E = lowers (wire_rel n) ->
     exists n', canon n' = canon n /\ wire_len n' = wire_len n /\ wire_rel n' = E /\ Forall valid_label n' /\
-      forall R seg tail e,
+      forall nl, nl + N.of_nat (wire_len n) < 255 -> forall R seg tail e,
         dpath R m (12 + len pre + len E) seg (nl + N.of_nat (wire_len n)) tail e ->
         dpath R m (12 + len pre) seg nl (n' ++ tail) e.
 Proof.
-  induction n as [|l ls IH]; intros Hv pre E post nl Hc HE Hnl.
+  induction n as [|l ls IH]; intros Hv pre E post Hc HE.
   - destruct E; [|discriminate HE]. exists []. repeat split; auto.
-    intros R seg tail e D. cbn [wire_len app len length] in *.
+    intros nl Hnl R seg tail e D. cbn [wire_len app len length] in *.
     change (len []) with 0 in D.
     replace (12 + len pre + 0) with (12 + len pre) in D by lia.
     replace (nl + N.of_nat 0) with nl in D by lia. exact D.
@@ -307,11 +306,10 @@ Proof.
       rewrite firstn_app, firstn_all2, skipn_app, skipn_all2 by (rewrite map_length; lia).
       rewrite map_length, Nat.sub_diag. cbn [firstn skipn]. rewrite app_nil_r. split; reflexivity. }
     destruct HlEl as [HlEl HlEls].
-    destruct (IH Hv' (pre ++ N.of_nat (length l) :: El) Els post (nl + N.of_nat (length l) + 1))
+    destruct (IH Hv' (pre ++ N.of_nat (length l) :: El) Els post)
       as (n'' & Hcan & Hwl & Hwr & Hv'' & P).
     { rewrite Hc, Hsplit. cbn [app]. repeat (rewrite <- app_assoc; cbn [app]). reflexivity. }
     { exact HlEls. }
-    { cbn [wire_len] in Hnl. lia. }
     assert (HvEl : valid_label El).
     { split; [lia|]. unfold wf_bytes. rewrite Forall_forall. intros x Hx.
       (* octets of El are lower-equal to octets of l; need < 256: from lowers El = lowers l and wf l *)
@@ -324,7 +322,7 @@ Proof.
     split; [cbn [wire_len]; rewrite HEl, Hwl; reflexivity|]. split.
     { rewrite wire_rel_cons, Hwr. unfold wire_label. rewrite HEl, Hsplit. reflexivity. }
     split; [constructor; auto|].
-    intros R seg tail e D. cbn [app].
+    intros nl Hnl R seg tail e D. cbn [app].
     assert (Hm : m = (h ++ pre) ++ N.of_nat (length l) :: El ++ Els ++ post).
     { unfold m. rewrite Hc, Hsplit. cbn [app]. repeat (rewrite <- app_assoc; cbn [app]). reflexivity. }
     assert (Hcur : 12 + len pre = N.of_nat (length (h ++ pre))) by (rewrite app_length, Hh; unfold len; lia).
@@ -341,7 +339,7 @@ Proof.
     + lia.
     + unfold mlen. rewrite Hm, !app_length, Hh. cbn [length]. rewrite !app_length, HEl. unfold len. lia.
     + cbn [wire_len] in Hnl. lia.
-    + specialize (P R seg tail e).
+    + specialize (P (nl + N.of_nat (length l) + 1) ltac:(cbn [wire_len] in Hnl; lia) R seg tail e).
       replace (12 + len pre + 1 + N.of_nat (length l)) with (12 + len (pre ++ N.of_nat (length l) :: El))
         by (unfold len; rewrite app_length; cbn [length]; rewrite HEl; lia).
       apply P.
@@ -495,9 +493,10 @@ Lemma verbatim_reads pre n post c : c = pre ++ wire_abs n ++ post -> Forall vali
     forall R seg, dpath R (h ++ c) (12 + len pre) seg 0 n' (12 + len pre + len (wire_abs n)).
 Proof.
   intros Hc Hv Hl.
-  destruct (path_ci h c Hh n Hv pre (wire_rel n) ([0] ++ post) 0) as (n' & Hcan & _ & _ & _ & P).
+  destruct (path_ci h c Hh n Hv pre (wire_rel n) ([0] ++ post)) as (n' & Hcan & _ & _ & _ & P0).
   { rewrite Hc. unfold wire_abs. app_eq. }
-  { reflexivity. } { lia. }
+  { reflexivity. }
+  pose proof (P0 0 ltac:(lia)) as P.
   exists n'. split; [exact Hcan|]. intros R seg. rewrite <- (app_nil_r n').
   replace (12 + len pre + len (wire_abs n)) with (12 + len pre + len (wire_rel n) + 1)
     by (unfold wire_abs, len; rewrite app_length; cbn [length]; lia).
@@ -540,9 +539,9 @@ Proof.
   (* the whole contents, cut at the target *)
   assert (Hc : c = (c0 ++ A) ++ B ++ ([0] ++ rest ++ [v / 256; v mod 256])).
   { unfold c, wire_abs. rewrite HAB. app_eq. }
-  destruct (path_ci h c Hh n_suf Hvs (c0 ++ A) B ([0] ++ rest ++ [v / 256; v mod 256]) (N.of_nat (wire_len n_pre)) Hc Hci)
-    as (ns' & Hcan_s & Hwl_s & Hwr_s & Hvs' & Ps).
-  { lia. }
+  destruct (path_ci h c Hh n_suf Hvs (c0 ++ A) B ([0] ++ rest ++ [v / 256; v mod 256]) Hc Hci)
+    as (ns' & Hcan_s & Hwl_s & Hwr_s & Hvs' & Ps0).
+  pose proof (Ps0 (N.of_nat (wire_len n_pre)) ltac:(lia)) as Ps.
   assert (Hlen_cA : len (c0 ++ A) = p) by (unfold len; rewrite app_length; unfold len in Hpeq; lia).
   rewrite Hlen_cA in Ps.
   (* root label behind the entry *)
@@ -592,10 +591,10 @@ Proof.
   assert (Dp : dpath R_new (h ++ c) cur (12 + s2) (N.of_nat (wire_len n_pre)) ns' (cur + 2)).
   { eapply dp_ptr; [exact PC|]. exact Dt. }
   (* the labels in front of the pointer *)
-  destruct (path_ci h c Hh n_pre Hvp (c0 ++ wire_abs n1) rest [v / 256; v mod 256] 0) as (np' & Hcan_p & _ & _ & _ & Pp).
+  destruct (path_ci h c Hh n_pre Hvp (c0 ++ wire_abs n1) rest [v / 256; v mod 256]) as (np' & Hcan_p & _ & _ & _ & Pp0).
   { unfold c. app_eq. }
   { rewrite Hrest. reflexivity. }
-  { lia. }
+  pose proof (Pp0 0 ltac:(lia)) as Pp.
   exists (np' ++ ns'). split.
   { rewrite Hsplit. unfold canon in *. rewrite !map_app. f_equal; assumption. }
   replace (len (c0 ++ wire_abs n1)) with s2 in Pp by (unfold s2, len; rewrite app_length; lia).
